@@ -313,21 +313,37 @@ def commands_hold_lock(R, fails, stats):
             elif rc != 0:
                 fails.append({"why": f"'{cmd}' failed in the holder-trace scenario: {e.decode('utf-8', 'replace')[-200:]}", **ctx})
                 continue
-            # the lock is gone once the holder has exited after SIGINT / SIGTERM - also after two of them
-            if cmd in ("rename", "undo") and work_idx:
+            # the lock is gone once the holder has exited after SIGINT / SIGTERM - also after two of them - and, for a holder that
+            # goes on working after the signal (the handlers only set flags), it stays in place until the work is done
+            if cmd != "apply_stale" and work_idx:
                 ev = evs[work_idx[min(1, len(work_idx) - 1)]]
-                for label, inj in (("SIGINT twice", f"{ev.sys}:signal=SIGINT:when={ev.ordinal}..{ev.ordinal + 1}"),
-                                   ("SIGTERM then SIGINT", [f"{ev.sys}:signal=SIGTERM:when={ev.ordinal}", f"{ev.sys}:signal=SIGINT:when={ev.ordinal + 1}"]),
-                                   ("SIGINT once", f"{ev.sys}:signal=SIGINT:when={ev.ordinal}")):
+                labels = [("SIGINT once", f"{ev.sys}:signal=SIGINT:when={ev.ordinal}"), ("SIGTERM once", f"{ev.sys}:signal=SIGTERM:when={ev.ordinal}")]
+                if cmd in ("rename", "undo"):
+                    labels += [("SIGINT twice", f"{ev.sys}:signal=SIGINT:when={ev.ordinal}..{ev.ordinal + 1}"),
+                               ("SIGTERM then SIGINT", [f"{ev.sys}:signal=SIGTERM:when={ev.ordinal}", f"{ev.sys}:signal=SIGINT:when={ev.ordinal + 1}"])]
+                for label, inj in labels:
                     with cli.Sandbox(tree) as sb3:
-                        if cmd == "undo":
+                        if cmd == "apply":
+                            sb3.run(["--no-auto-init", "plan", "old_name", "new_name", "--quiet"])
+                        if cmd in ("undo", "redo"):
                             sb3.run(["--no-auto-init", "-y", "rename", "old_name", "new_name"])
+                        if cmd == "redo":
+                            sb3.run(["--no-auto-init", "-y", "undo", "latest"])
                         rc3, o3, e3, tr3 = inject.strace_run(sb3, ["--no-auto-init"] + args, inject=inj)
                         stats["holder_signal_runs"] = stats.get("holder_signal_runs", 0) + 1
                         R.case(("holder_signal", cmd, label), nontrivial=True)
                         if (sb3.root / ".renamify" / "renamify.lock").exists():
                             fails.append({"why": f"the lock file is still there after '{cmd}' was interrupted ({label}) and exited with status {rc3}",
                                           "cmd": cmd, "inject": inj, "rc": rc3, "stderr": e3.decode("utf-8", "replace")[-300:]})
+                            continue
+                        ev3 = inject.mutating_events(tr3, sb3.root, classes=("user", "state", "lock"))
+                        l3 = [k for k, x in enumerate(ev3) if x.cls == "lock"]
+                        w3 = [k for k, x in enumerate(ev3) if x.cls == "user" or
+                              (x.cls == "state" and "renamify.lock" not in x.raw and not (x.sys == "mkdir" and x.raw.split('"')[1].rstrip("/").rsplit("/", 1)[-1] == ".renamify"))]
+                        if l3 and w3 and l3[-1] < w3[-1]:
+                            fails.append({"why": f"'{cmd}' interrupted by {label} removed its lock file and then went on changing the workspace: "
+                                                 "a second process can enter while the first is still working", "cmd": cmd, "inject": inj, "rc": rc3,
+                                          "events": [f"{x.cls}:{x.sys}" for x in ev3][:60]})
             if not work_idx:
                 continue
             if not lock_idx:
